@@ -1626,6 +1626,11 @@ func TestCheck(t *testing.T) {
 				lg := readFatal(r.LogPath)
 				var sig string
 				switch {
+				case lg.oom && cur.Call == callLoad && strings.Contains(siteOf(lg.fns), "saferio.ReadData") && lg.oomBytes <= allocBound(len(in.Bytes))+2*gobChunk:
+					// encoding/gob's bounded read-ahead for an undecodable payload (accepted, see the
+					// assumptions): the address-space limit bit on an allocation that judge() allows
+					retry(lg.fatal)
+					continue
 				case lg.oom && lg.oomBytes > allocBound(len(in.Bytes)):
 					sig = "alloc:site=" + siteOf(lg.fns)
 					c.Violate(sig, fmt.Sprintf("%s asked for a %d-byte block for a %d-byte %s input (%s), more than the child's address-space headroom (%d MiB), and the process died: %s; allocation site %s", name, lg.oomBytes, len(in.Bytes), in.Class, in.Desc, asHeadroom>>20, lg.fatal, siteOf(lg.fns)),
